@@ -15,7 +15,7 @@ RULE = ('T2: every codec of the implementation on generated values. Evaluated by
 	'every single octet, sizes around 4096/8192 and incompressible blocks, the charset step of text/plain and json, Headers.compose, Multipart.encode/decode '
 	'(valid encodings, mutated encodings, token streams), VALID_BOUNDARY, message/http encode/decode. Oracle: the round trips stated on the real code '
 	'(Body.compress/decompress, wire, Body.encode/decode for json, form, text/plain per charset, multipart part lists with binary content and header sets, '
-	'message/http requests and responses). non-trivial = distinct (kind, input, outcome class)')
+	'message/http requests and responses; texts that start with, contain and end with U+FEFF, noncharacters, NUL and every line-end flavour under utf-8/latin-1/ascii/utf-16*/utf-32*, lone surrogates refused, byte order marks in front of coded bodies, parts and embedded messages). non-trivial = distinct (kind, input, outcome class)')
 EXHAUSTIVE = {'quick': False, 'thorough': False}
 TRUSTED = ['harness/tables/codecs.py (T1: piece size, ASCII class of Codec.decode, coding names, default part content types, header priorities / list fields, VALID_BOUNDARY classes, four repair-variant probes)',
 	'harness/props/C14.py + coq/Corr/C14.v (T2 canonicalisation: exceptions mapped to an enum; T3: zlib/gzip/start-line answers recorded by the harness and looked up by the model)',
@@ -485,6 +485,85 @@ def _gen_cases(rng, tier):
 			if rng.random() < 0.2:
 				out = _mutate(rng, out)
 		cases.append({'k': 'http_dec', 'd': out.hex()})
+	cases.extend(_special_cases(rng, big))
+	return cases
+
+
+# characters that charset codecs, line-oriented code or "helpful" decoders special-case: byte order mark / ZWNBSP, noncharacters,
+# NUL, line ends of every flavour (CR, LF, CRLF, NEL, LS, PS, VT, FF), SUB, DEL, NBSP, the Latin-1 spellings of the UTF-8 / UTF-16
+# byte order marks, UTF-7 look-alikes, the last code point, astral characters; lone surrogates must be refused by every charset
+SPECIAL = ['\ufeff', '\ufffe', '\uffff', '\ufdd0', '\ufdef', '\U0001fffe', '\U0001ffff', '\U0010fffe', '\U0010ffff', '\x00', '\r', '\n', '\r\n', '\n\r', '\x85', '\u2028', '\u2029',
+	'\x0b', '\x0c', '\x1a', '\x1b', '\x7f', '\x80', '\xa0', '\xad', '\xff', '\xfe', '\u200b', '\u200e', '\ufffd', '\ufffc', '\U0001f600', '\U00010000', 'ï»¿', 'ÿþ', 'þÿ', '+/v8-', '+AAA-', '\\', '"', '%EF%BB%BF', ' ', '\t']
+SURROGATES = ['\ud800', '\udbff', '\udc00', '\udfff', '\ud83d\ude00']
+RT_CHARSETS = ['UTF-8', 'utf-8', 'utf8', None, 'ISO8859-1', 'ascii', 'utf-16', 'utf-16-le', 'utf-16-be', 'utf-32', 'utf-32-le', 'utf-32-be']
+BOMS = [b'\xef\xbb\xbf', b'\xff\xfe', b'\xfe\xff', b'\xff\xfe\x00\x00', b'\x00\x00\xfe\xff', b'+/v8', b'\xf7\x64\x4c', b'\x0e\xfe\xff', b'\xfb\xee\x28', b'\x84\x31\x95\x33']
+
+
+def _placements(s, base='abc'):
+	return [s, s + base, base + s, base[:1] + s + base[1:], s + s, s + base + s, s + s + base, ' ' + s, s + ' ', s + '\r\n' + s]
+
+
+def _special_cases(rng, big):
+	cases = []
+	specials = SPECIAL if big else SPECIAL[:22] + rng.sample(SPECIAL[22:], 8)
+	for s in dict.fromkeys(SPECIAL[:3] + specials):   # U+FEFF, U+FFFE, U+FFFF in every tier
+		# --- text/plain: every placement under every charset (unencodable combinations are skipped by observe)
+		for t in _placements(s):
+			for cs in RT_CHARSETS:
+				cases.append({'k': 'plain_rt', 'cs': cs, 't': t})
+		# --- json: as value, key, nested; default charset and declared ones
+		for t in _placements(s)[:6]:
+			for cs in (None, 'UTF-8', 'ISO8859-1'):
+				cases.append({'k': 'json_rt', 'cs': cs, 'v': t})
+			cases.append({'k': 'json_rt', 'cs': None, 'v': {t: [t, {'k': t}]}})
+		# --- form: as name, value, both
+		for t in _placements(s)[:6]:
+			for cs in ('UTF-8', 'ISO8859-1', None):
+				if cs != 'UTF-8' and any(ord(ch) > 255 for ch in t):
+					continue   # as in the random form cases: without a declared charset the codec's own default is ISO8859-1, text outside it is unencodable there
+				for ps in ([['n', t]], [[t, 'v']], [[t, t], ['x', t]]):
+					cases.append({'k': 'form_rt', 'cs': cs, 'ps': ps})
+		# --- the decoders of the charset step on the UTF-8 octets of the text (model: Lib/Utf8 validity)
+		for t in _placements(s)[:4]:
+			d = t.encode('utf-8')
+			for cs in TCS:
+				cases.append({'k': 'plain_dec', 'cs': cs, 'd': d.hex()})
+			cases.append({'k': 'json_dec', 'cs': None, 'd': d.hex()})
+			cases.append({'k': 'json_dec', 'cs': 'UTF-8', 'd': (d + b'"a"').hex()})
+	# --- lone surrogates: refused by every charset (observe reports 'unencodable' only if the codec raises EncodeError), kept by json
+	for s in SURROGATES:
+		for t in _placements(s)[:4]:
+			for cs in RT_CHARSETS:
+				cases.append({'k': 'plain_rt', 'cs': cs, 't': t})
+			d = t.encode('utf-8', 'surrogatepass')
+			for cs in TCS:
+				cases.append({'k': 'plain_dec', 'cs': cs, 'd': d.hex()})
+			if len(s) == 1:
+				cases.append({'k': 'json_rt', 'cs': None, 'v': t})
+			cases.append({'k': 'form_rt', 'cs': 'UTF-8', 'ps': [['n', t]]})
+	# --- octets: a byte order mark of any family in front of, inside and behind the data, for every charset label the check uses
+	tails = [b'', b'abc', b'a\x00b\x00', b'\x00a\x00b', b'\r\n', b'\xe4']
+	for bom in BOMS:
+		datas = [bom + t for t in tails] + [b'abc' + bom, b'a' + bom + b'b', bom + bom, bom[:-1], bom[1:] + b'a']
+		for d in datas:
+			for cs in TCS:
+				cases.append({'k': 'plain_dec', 'cs': cs, 'd': d.hex()})
+			cases.append({'k': 'json_dec', 'cs': rng.choice([None, 'UTF-8', 'ascii']), 'd': (d + b'"a"').hex()})
+			cases.append({'k': 'pieces', 'd': d.hex()})
+		for d in datas[:8]:
+			for coding in (GZ, ZL):
+				for cs in ['UTF-8', 'ISO8859-1', 'ascii', 'utf-16', 'utf-16-le', 'utf-16-be', 'utf-32', 'foo']:
+					cases.append({'k': 'body_rt', 'c': coding, 'cs': cs, 'd': d.hex()})
+					if cs != 'utf-32' and (big or d in datas[:3] or cs in ('UTF-8', 'utf-16')):
+						cases.append({'k': 'wire', 'c': coding, 'cs': cs, 'req': len(d) % 2 == 0, 'd': d.hex()})
+				cases.append({'k': 'iter', 'c': coding, 'd': d.hex()})
+		# a multipart part and an embedded message whose content starts with the mark
+		for d in datas[:4]:
+			for ct in (b'text/plain', b'text/plain; charset=UTF-8', b'application/octet-stream'):
+				cases.append({'k': 'mp_rt', 'sub': 'mixed', 'bd': b'asdf'.hex(), 'ps': [[[['Content-Type', ct.hex()]], d.hex()], [[['Content-Type', ct.hex()]], (b'x' + d).hex()]]})
+				cases.append({'k': 'mp_enc', 'digest': False, 'bd': b'asdf'.hex(), 'ps': [[[['Content-Type', ct.hex()]], d.hex()]]})
+				cases.append({'k': 'http_rt', 'req': True, 'method': 'POST', 'uri': '/', 'proto': '1.1', 'hs': [['Content-Type', ct.hex()]], 'body': d.hex()})
+				cases.append({'k': 'http_rt', 'req': False, 'status': 200, 'reason': 'OK', 'proto': '1.1', 'hs': [['Content-Type', ct.hex()]], 'body': d.hex()})
 	return cases
 
 
